@@ -312,7 +312,9 @@ Inductive hop :=
 | HBin (b : binop) (i j : nat)       (* v_new = v_i op v_j *)
 | HSet (i : nat) (k : Z) (c : Qc)    (* v_i[k] = c *)
 | HHash (l : list nat)               (* len({v_i for i in l}) : hashes every listed object *)
-| HNop.                              (* the caller mutates a container it built an object from *)
+| HNop                               (* the caller mutates a container it built an object from *)
+| HEval (i : nat) (v : Qc)           (* v_i(v), v_i(v, horner=True), v_i(v, horner=False): no effect on any object *)
+| HZero (i : nat).                   (* v_i.zero = <the number zero in some numeric kind>: TypeError once hashed *)
 Record hstate := HS { objs : list (poly * bool); slots : list nat }.
 Definition hinit : hstate := HS [] [].
 Definition obj_of (s : hstate) (i : nat) : option (nat * (poly * bool)) :=
@@ -382,6 +384,13 @@ Definition hstep (s : hstate) (op : hop) : hstate * res Z :=
       (HS (fold_left (fun ob o => match nth_error ob o with Some (p, _) => upd ob o (p, true) | None => ob end) os (objs s))
           (slots s), Ok (Z.of_nat (distinct_count ps)))
   | HNop => (s, Ok 0%Z)
+  | HEval i _ => match obj_of s i with Some _ => (s, Ok 0%Z) | None => (s, Raise "IndexError") end
+  | HZero i =>
+      match obj_of s i with
+      | Some (_, (_, true)) => (s, Raise "TypeError")
+      | Some (_, (_, false)) => (s, Ok 0%Z)
+      | None => (s, Raise "IndexError")
+      end
   end.
 (* what the caller sees: the terms behind every variable *)
 Definition view (s : hstate) : list poly :=
